@@ -285,10 +285,23 @@ func ComparableTo(pkg *Package, varg, targ *Element) bool {
 			return untypedComparable(pkg, t, targ, V)
 		}
 	}
+	if uncomparable(pkg, V) || uncomparable(pkg, T) {
+		return false // slices, maps and functions (and types containing them) compare with nil only
+	}
 	if getUnderlying(pkg, V) == getUnderlying(pkg, T) {
 		return true
 	}
 	return AssignableConv(pkg, V, T, varg) || AssignableConv(pkg, T, V, targ)
+}
+
+func uncomparable(pkg *Package, t types.Type) bool {
+	switch u := getUnderlying(pkg, types.Unalias(t)).(type) {
+	case *types.Slice, *types.Map, *types.Signature:
+		return true
+	case *types.Struct, *types.Array:
+		return !types.Comparable(u)
+	}
+	return false
 }
 
 func untypedComparable(pkg *Package, v *types.Basic, varg *Element, t types.Type) bool {
